@@ -264,7 +264,7 @@ def cm3_encode_line(r, prev, cur, prev_last, mode):
     return bytes([contr]) + pk(left_bits) + pk(up_bits) + bytes(lits)
 
 
-def build_cm3(r, pages=None, pattern=None, mode=None):
+def build_cm3(r, pages=None, pattern=None, mode=None, first_row_zero=False):
     pages = pages if pages is not None else r.choice([1, 1, 2])
     pattern = pattern if pattern is not None else (r.randrange(2) == 0)
     mode = mode if mode is not None else r.choice([0, 1, 2, 3])
@@ -275,6 +275,8 @@ def build_cm3(r, pages=None, pattern=None, mode=None):
         for y in range(1, rows):
             if r.randrange(3) == 0:
                 px[y * 320:(y + 1) * 320] = px[(y - 1) * 320:y * 320]
+    if first_row_zero:     # the first line copies from the initial (all zero) line buffer
+        px[0:320] = [0] * 320
     by = pack_nib(px)
     pictyp = (0x80 if pages == 2 else 0) | (0 if pattern else 1) | r.choice([0, 2, 0x40])
     data = bytearray([pictyp]) + bytes(pal) + bytes(r.randrange(256) for _ in range(12))
